@@ -28,7 +28,8 @@ MANIFEST = dict(
          'ACK/SYN); a refused job consults no behaviour/memory oracle and does not count; quota theorems '
          '(completed <= N, EX_RECYCLE iff completed = N, never returns without quota); unserialisable result => one '
          'encoding-error READY and the loop continues; _ensure_messages_consumed true iff the counter reaches '
-         'completed within 300 polls; parent: accept callback before any result callback for streams in pipe order, '
+         'completed within 300 polls; process exit status (Worker.__call__/_do_exit) is EX_RECYCLE exactly when workloop '
+         'returned it; parent: accept callback before any result callback for streams in pipe order, '
          'owner pid = pid of the ACK, cancelled+handshake => NACK, no callback, no owner. Correspondence of the real '
          'workloop / ResultHandler+ApplyResult on scripted cases, every event compared in Coq.',
     note='Trusted: Coq kernel, translate/kernels/worker.py (+pykernel.FuncTr), Lib/PyVal.v, harness fakes (scripted '
@@ -204,7 +205,18 @@ def c_pobs(o):
         cbool(o['ready']), cbool(o['in_cache']), clist(o['pids']))
 
 
+def c_zz(p):
+    return '(%s, %s)' % (cz(need_int(p[0])), cz(need_int(p[1])))
+
+
+def c_cobs(k):
+    return '(%s, %s, %s, %s)' % (copt(k['onexit'], c_zz), copt(k['death'], c_zz),
+                                 copt(k['osexit'], lambda v: cz(need_int(v))), cbool(k['sleep1']))
+
+
 def to_coq(c, o):
+    if c['kind'] == 'w' and c.get('via_call'):
+        return '(CCase %s %s %s %s)' % (c_cfg(c), clist(c['ins'], c_inev), c_wobs(o), c_cobs(o['call']))
     if c['kind'] == 'w':
         return '(WCase %s %s %s)' % (c_cfg(c), clist(c['ins'], c_inev), c_wobs(o))
     return '(PCase %s %s %s)' % (c_pcfg(c), clist(c['evs'], c_pev), c_pobs(o))
@@ -279,10 +291,19 @@ def gen_wcase(rng):
     if rng.random() < 0.85:
         ins.append(rng.choice(TERMINAL))
     c['ins'] = ins
+    if rng.random() < 0.3:
+        via_call(c)
     return c
 
 
-def boundary_wcases():
+def via_call(c):
+    """run this case through the real Worker.__call__ (which passes pid=os.getpid())"""
+    c['via_call'] = True
+    c['pid'] = None
+    return c
+
+
+def boundary_wcases(full=True):
     """systematically enumerated: k jobs of one behaviour under every quota, with and without
     handshake; quota edge N-1/N/N+1; NACK in every position; memory limit edge; every receive
     event in first position and in the SYN wait"""
@@ -290,7 +311,7 @@ def boundary_wcases():
     out = []
     base = dict(kind='w', synfd=None, inqfd=7, pid=77, ospid=4242, maxmem=None, counter=None)
     for beh in BEHS:
-        for quota in (None, 1, 2, 3, 4, 5):
+        for quota in ((None, 1, 2, 3, 4, 5) if full else (None, 1, 2, 5)):
             for k in ((0, 1, 30) if quota is None else (quota - 1, quota, quota + 1)):
                 for synfd in (None, 9):
                     c = dict(base, maxtasks=quota, synfd=synfd)
@@ -335,6 +356,10 @@ def boundary_wcases():
         c = dict(base, maxtasks=2, counter=dict(reads=reads, dflt=dflt))
         c['ins'] = [['msg', 2, n, None, n, ['ret', n], [], 0] for n in range(2)]
         out.append(c)
+    # every way of leaving the loop, through Worker.__call__/_do_exit (exit status, DEATH message)
+    for k, c in enumerate(list(out)):
+        if k % 4 == 0:
+            out.append(via_call(json.loads(json.dumps(c))))
     rng.shuffle(out)
     return out
 
@@ -418,7 +443,7 @@ def correspond(res, n):
     rng = random.Random(res.seed * 65537 + 303)
     corpus = json.load(open(core.VERIF + '/corpus/C03.json'))
     full = res.tier != 'quick'
-    wcases = [c for c in corpus if c['kind'] == 'w'] + boundary_wcases() + [gen_wcase(rng) for _ in range(n)]
+    wcases = [c for c in corpus if c['kind'] == 'w'] + boundary_wcases(full) + [gen_wcase(rng) for _ in range(n)]
     wouts = core.run_driver('worker_driver.py', wcases, timeout=1200)
     pcases = ([c for c in corpus if c['kind'] == 'p'] + boundary_pcases(full)
               + [gen_pcase(rng) for _ in range(n)] + derive_pcases(rng, wcases, wouts, max(50, n // 3)))
@@ -441,7 +466,13 @@ def correspond(res, n):
     nw = sum(1 for k in tidx if cases[k]['kind'] == 'w')
     chunks = core.chunks(terms[:nw], 120) + core.chunks(terms[nw:], 450)
     chunks = [ch for ch in chunks if ch]
-    codes, _ = core.coq_eval('C03', HEADER, chunks, timeout=1500)
+    try:
+        codes, _ = core.coq_eval('C03', HEADER, chunks, timeout=1500)
+    except RuntimeError:
+        # a concurrent build may have replaced a .vo under our feet: once more, under the build lock
+        with core.Lock():
+            core.coq_make(['Model/Worker.vo'])
+            codes, _ = core.coq_eval('C03', HEADER, chunks, timeout=1500)
 
     # accept-before-result judged directly on the implementation's parent traces that are in
     # pipe order (derived from real worker streams)
@@ -453,7 +484,7 @@ def correspond(res, n):
                                             'consumed in pipe order: %s -> %s' % (json.dumps(c['evs']), json.dumps(o['log'])),
                                        replay=dict(case=c, impl=o)))
 
-    hist = dict(jobs={}, behaviours={}, quotas={}, syn_answers={}, exits={}, parent_lengths={})
+    hist = dict(jobs={}, behaviours={}, quotas={}, syn_answers={}, exits={}, parent_lengths={}, via_call_status={})
 
     def bump(d, k):
         d[str(k)] = d.get(str(k), 0) + 1
@@ -462,6 +493,8 @@ def correspond(res, n):
         bump(hist['jobs'], len(jobs))
         bump(hist['quotas'], c['maxtasks'])
         bump(hist['exits'], '%s:%s' % tuple(o['exit']))
+        if c.get('via_call'):
+            bump(hist['via_call_status'], o['call']['osexit'])
         for e in jobs:
             bump(hist['behaviours'], e[5][0])
             if c['synfd'] is not None:
@@ -475,7 +508,7 @@ def correspond(res, n):
                 samples=[dict(case=wcases[sample_w], impl=wouts[sample_w]),
                          dict(case=pcases[-1], impl=pouts[-1])],
                 rule='worker: corpus + enumerated boundary cases (every behaviour x quota None/1..5 x N-1/N/N+1 jobs x '
-                     'handshake on/off, refusal in every position, memory readings around the limit, every receive event '
+                     'handshake on/off (quick tier: quotas None/1/2/5), refusal in every position, memory readings around the limit, every receive event '
                      'on the job pipe and in the SYN wait, invalid quotas, counter reached at poll 0/1/299/never) + seeded '
                      'random scripts of 0..30 jobs; parent: all event lists up to length %d over 6 events x 16 callback '
                      'configurations + random lists + streams derived from the real worker outputs with cancellations '
@@ -495,7 +528,7 @@ def correspond(res, n):
             if c['kind'] == 'w':
                 sig, what = 'C03:worker-protocol-differs', (
                     'real Worker.workloop violates the protocol / differs from the proved model in messages, '
-                    'executions, exit or completed count')
+                    'executions, exit, completed count or reported exit status')
             else:
                 sig, what = 'C03:parent-ack-differs', (
                     'real ResultHandler/ApplyResult differs from the proved model in callbacks, SYN response or ownership record')
@@ -508,7 +541,7 @@ def correspond(res, n):
 
 def run(res):
     res.proof_step('Props/C03.v', extra_targets=['Model/Worker.vo'], kernels_needed=['K_worker'])
-    n = 260 if res.tier == 'quick' else 12000
+    n = 200 if res.tier == 'quick' else 8000
     if res.broken:
         n = max(n, 3000)      # failing-input search
     correspond(res, n)
